@@ -290,6 +290,31 @@ def check(ctx):
                 if isinstance(p, ast.IfExp) and n is p.body and _stmt_calls(p.test, "recording") and not isinstance(p.test, ast.UnaryOp):
                     guarded = True
                 n = p
+            if not guarded:
+                # path form: every path from the entry to the delegating statement crosses the edge of a recording() test that
+                # establishes it (true edge of `if cls.recording()`, false edge of `if not cls.recording(): return`)
+                gcfg = CFG(f.node, may_raise=lambda n_: False)
+                tgt = [nd for nd in gcfg.stmts() if nd.stmt is not None and any(x is c for x in ast.walk(nd.stmt)) and nd.kind in ("stmt", "return")]
+                if tgt:
+                    seen_, stack_ = {gcfg.entry}, [gcfg.entry]
+                    reach = False
+                    while stack_:
+                        cur_ = stack_.pop()
+                        if cur_ == tgt[0].id:
+                            reach = True
+                            break
+                        nd_ = gcfg.nodes[cur_]
+                        glabel = None
+                        if nd_.kind == "test" and _stmt_calls(nd_.stmt.test, "recording"):
+                            t_ = nd_.stmt.test
+                            glabel = "false" if isinstance(t_, ast.UnaryOp) and isinstance(t_.op, ast.Not) else ("true" if not isinstance(t_, ast.BoolOp) else None)
+                        for s_, lab_ in gcfg.succ[cur_]:
+                            if glabel is not None and lab_ == glabel:
+                                continue
+                            if s_ not in seen_:
+                                seen_.add(s_)
+                                stack_.append(s_)
+                    guarded = not reach
             if guarded:
                 rep.proved("R-C41-inner", f"{qm.relpath}:{f.qualname}", "delegates to active_context() under recording()")
             else:
